@@ -125,3 +125,12 @@ package controllerv1
 //@   flag checks=-assert,-index,+nilchan
 //@ func (*TempoController).ValuesV2 [C12]
 //@   flag checks=-assert,-index,+nilchan
+
+// GET /api/traces/{traceId}: a trace id of any length ends in a response - the hex
+// decoder is never handed more digits than its 32-byte buffer holds (it panics
+// otherwise, and the handler has no recover: the client would get no response).
+//@ iface (github.com/metrico/qryn/reader/model.ITempoService).Query(ctx, startNS, endNS, traceId, binIds)
+//@   modifies nothing
+//@   ensures isnil(result1) ==> result0 != nil
+//@ func (*TempoController).Trace [C12]
+//@   flag checks=-assert,-index,+nilchan
